@@ -432,6 +432,41 @@ fn run_json(w: &mut Tape, env: &EnvRef) -> RunResult {
                 }
             }
             3 => bytes.truncate(i),
+            4 | 5 => {
+                // structure-aware: further members (conflicting, repeated, mistyped) behind the "vr" member of one
+                // element object, as a merge of two documents or a replayed write would leave them
+                let mut at = Vec::new();
+                let mut from = 0usize;
+                while let Some(p) = find(&bytes[from..], b"\"vr\":\"") {
+                    let q = from + p + 9; // behind "vr":"XX"
+                    if q <= bytes.len() {
+                        at.push(q);
+                    }
+                    from += p + 6;
+                }
+                if !at.is_empty() {
+                    let q = at[w.below(at.len() as u32) as usize];
+                    let ins: &[u8] = [
+                        &b",\"InlineBinary\":\"AAAA\""[..],
+                        b",\"BulkDataURI\":\"http://example.org/x\"",
+                        b",\"Value\":[1,2]",
+                        b",\"Value\":[1,2],\"InlineBinary\":\"AAAA\"",
+                        b",\"InlineBinary\":\"AAAA\",\"Value\":[1]",
+                        b",\"Value\":[\"a\"],\"BulkDataURI\":\"u\"",
+                        b",\"BulkDataURI\":\"u\",\"InlineBinary\":\"AAAA\"",
+                        b",\"vr\":\"OB\"",
+                        b",\"InlineBinary\":\"!!!\"",
+                        b",\"InlineBinary\":7",
+                        b",\"Value\":null",
+                        b",\"Value\":[null]",
+                        b",\"Value\":[{\"Alphabetic\":1}]",
+                        b",\"Value\":[{\"00100010\":{\"vr\":\"PN\"}}]",
+                        b",\"Other\":1",
+                    ][w.below(15) as usize];
+                    bytes.splice(q..q, ins.iter().cloned());
+                    env.with(|e| e.obs.fault("json-member"));
+                }
+            }
             _ => env.with(|e| corrupt(w, &mut e.obs, &mut bytes, None)),
         }
     }
@@ -460,10 +495,109 @@ fn find(h: &[u8], n: &[u8]) -> Option<usize> {
     h.windows(n.len()).position(|w| w == n)
 }
 
+/// A PDU whose framing is consistent (every length field covers exactly what follows, as the independent
+/// encoder guarantees) but whose content is not what its type prescribes: fixed-size fields cut short or
+/// over-long, sub-items of the wrong kind, bodies shorter than the fixed part. This is what a misbehaving
+/// peer sends, or what a splice of two valid messages leaves.
+fn framed_malformed_pdu(w: &mut Tape) -> Vec<u8> {
+    use dcmref::pdu::{self as rp, RAssoc, RItem, RPdu, RPdv, RSub};
+    let cut = |w: &mut Tape, mut d: Vec<u8>| -> Vec<u8> {
+        match w.below(4) {
+            0 => d.truncate(w.below(d.len() as u32 + 1) as usize),
+            1 => d.truncate(w.below(4).min(d.len() as u32) as usize),
+            2 => d.extend(std::iter::repeat(0x41).take(1 + w.below(5) as usize)),
+            _ => {}
+        }
+        d
+    };
+    let uid: &[u8] = b"1.2.840.10008.1.1";
+    let mut subs = vec![
+        rp::sub_max_length([0u32, 16384, u32::MAX][w.below(3) as usize]),
+        rp::sub_impl_class_uid(b"1.2.3.999"),
+        rp::sub_impl_version(b"V1"),
+        RSub { ty: 0x53, data: vec![0, 1, 0, 1] },
+        rp::sub_role(uid, 1, 0).unwrap(),
+        rp::sub_ext_neg(uid, &[1, 2, 3]).unwrap(),
+        rp::sub_user_identity(2, 1, b"user", b"secret").unwrap(),
+        RSub { ty: 0x59, data: vec![0, 2, 9, 9] },
+        RSub { ty: 0x57, data: vec![0, 3, b'1', b'.', b'2', 0, 0] },
+    ];
+    // keep a seed-chosen subset, in seed-chosen order, and damage the content of one or two
+    let mut chosen = Vec::new();
+    for _ in 0..(1 + w.below(5)) {
+        chosen.push(subs[w.below(subs.len() as u32) as usize].clone());
+    }
+    for _ in 0..(1 + w.below(2)) {
+        let i = w.below(chosen.len() as u32) as usize;
+        let d = std::mem::take(&mut chosen[i].data);
+        chosen[i].data = cut(w, d);
+        if w.chance(1, 5) {
+            chosen[i].ty = [0x51u8, 0x52, 0x53, 0x54, 0x55, 0x56, 0x57, 0x58, 0x59, 0x5A][w.below(10) as usize];
+        }
+    }
+    subs = chosen;
+    let mut pc_subs = vec![RSub { ty: 0x30, data: uid.to_vec() }, RSub { ty: 0x40, data: b"1.2.840.10008.1.2".to_vec() }];
+    if w.chance(1, 3) {
+        let i = w.below(2) as usize;
+        let d = std::mem::take(&mut pc_subs[i].data);
+        pc_subs[i].data = cut(w, d);
+        if w.chance(1, 4) {
+            pc_subs[i].ty = [0x30u8, 0x40, 0x10, 0x50, 0x20][w.below(5) as usize];
+        }
+    }
+    let mut items = vec![RItem::AppCtx(b"1.2.840.10008.3.1.1.1".to_vec())];
+    match w.below(4) {
+        0 => items.push(RItem::PcProposed { id: 1, subs: pc_subs }),
+        1 => items.push(RItem::PcResult { id: 1, reason: w.below(5) as u8, subs: pc_subs }),
+        // a presentation context item shorter than its fixed part
+        2 => items.push(RItem::Other { ty: [0x20u8, 0x21][w.below(2) as usize], data: vec![1u8, 0, 0, 0][..w.below(4) as usize].to_vec() }),
+        _ => {}
+    }
+    if w.chance(3, 4) {
+        items.push(RItem::UserInfo(subs));
+    } else {
+        items.push(RItem::Other { ty: 0x50, data: vec![0x51, 0, 0][..w.below(4) as usize].to_vec() });
+    }
+    if w.chance(1, 4) {
+        let n = items.len();
+        items.swap(0, n - 1);
+    }
+    let assoc = RAssoc { version: [1u16, 0, 0xFFFF][w.below(3) as usize], called: b"ANY-SCP".to_vec(), calling: b"ANY-SCU".to_vec(), items };
+    let p = match w.below(8) {
+        0..=3 => {
+            if w.chance(1, 2) {
+                RPdu::AssocRq(assoc)
+            } else {
+                RPdu::AssocAc(assoc)
+            }
+        }
+        // a known PDU type with a body shorter (or longer) than its fixed part
+        4 => RPdu::Unknown { ty: 1 + w.below(7) as u8, data: vec![0u8; w.below(70) as usize] },
+        5 => RPdu::Unknown { ty: [3u8, 5, 6, 7][w.below(4) as usize], data: vec![0u8; w.below(8) as usize] },
+        // P-DATA whose value item declares less than its two header bytes, or more than the PDU holds
+        6 => {
+            let mut body = Vec::new();
+            body.extend_from_slice(&([0u32, 1, 2, 3, 0xFFFF_FFFF, 100][w.below(6) as usize]).to_be_bytes());
+            body.extend_from_slice(&vec![1u8; w.below(6) as usize]);
+            RPdu::Unknown { ty: 4, data: body }
+        }
+        _ => RPdu::PData(vec![RPdv { ctx: w.below(256) as u8, header: w.below(256) as u8, data: vec![0u8; w.below(40) as usize] }]),
+    };
+    rp::encode(&p).unwrap_or_default()
+}
+
 fn run_pdu(w: &mut Tape, env: &EnvRef) -> RunResult {
     let n = 1 + w.below(3);
     let mut bytes = Vec::new();
-    for _ in 0..n {
+    let framed = w.chance(1, 3);
+    if framed {
+        // consistent framing, malformed content; no further damage, so that the decoder gets past the framing
+        for _ in 0..n {
+            bytes.extend_from_slice(&framed_malformed_pdu(w));
+        }
+        env.with(|e| e.obs.fault("pdu-content-malformed"));
+    }
+    for _ in 0..(if framed { 0 } else { n }) {
         let p = gen_pdu(
             w,
             &GenOpts {
@@ -474,14 +608,16 @@ fn run_pdu(w: &mut Tape, env: &EnvRef) -> RunResult {
         );
         let _ = write_pdu(&mut bytes, &p);
     }
-    env.with(|e| corrupt(w, &mut e.obs, &mut bytes, None));
+    if !framed {
+        env.with(|e| corrupt(w, &mut e.obs, &mut bytes, None));
+    }
     // length-field targeting: PDU length and item lengths
-    if bytes.len() >= 6 && w.chance(1, 2) {
+    if !framed && bytes.len() >= 6 && w.chance(1, 2) {
         let v: u32 = [0xFFFF_FFFF, 0, 1, 5, 0x7FFF_FFFF, (bytes.len() as u32).wrapping_sub(5)][w.below(6) as usize];
         bytes[2..6].copy_from_slice(&v.to_be_bytes());
         env.with(|e| e.obs.fault("pdu-length-field"));
     }
-    if bytes.len() >= 80 && w.chance(1, 2) {
+    if !framed && bytes.len() >= 80 && w.chance(1, 2) {
         let i = 74 + w.below((bytes.len() - 78) as u32) as usize;
         let v: u16 = [0xFFFF, 0, 1, 3][w.below(4) as usize];
         bytes[i..i + 2].copy_from_slice(&v.to_be_bytes());
